@@ -102,6 +102,25 @@ func rootsEnv(v ssa.Value, env *frameEnv, pkg string) []envVal {
 					out = append(out, k)
 					continue
 				}
+			case *ssa.Extract:
+				// one result of a helper of the package (`key, err := cacheKey(script)`)
+				if call, ok := x.Tuple.(*ssa.Call); ok {
+					if g := staticCallee(call); g != nil && len(g.Blocks) > 0 && fnPkgPath(origin(g)) == pkg {
+						ne := &frameEnv{fn: g, args: map[*ssa.Parameter]ssa.Value{}, parent: env}
+						for i, p := range g.Params {
+							if i < len(call.Call.Args) {
+								ne.args[p] = call.Call.Args[i]
+							}
+						}
+						for _, b := range g.Blocks {
+							if ret, ok := b.Instrs[len(b.Instrs)-1].(*ssa.Return); ok && x.Index < len(ret.Results) {
+								walk(ret.Results[x.Index], ne, depth+1)
+							}
+						}
+						out = append(out, k)
+						continue
+					}
+				}
 			case *ssa.UnOp:
 				// a load of a local struct literal: the literal itself
 				if a, ok := x.X.(*ssa.Alloc); ok {
